@@ -342,9 +342,16 @@ def task_sorter(pr, repo):
             pr.explore(ex, thunk, 'conformation_sorter')
 
 
+def task_proton_registration(pr, repo):
+    # a conformation made of copies registers its chains when the protonation adds atoms through add_atom (C17-AP); the report is
+    # written chain by chain
+    from . import C17
+    C17.task_add_proton(pr, repo)
+
+
 def run(pr, repo):
     pr.parallel([(task_average, (3,)), (task_average, (2,)), (task_average_twins, ()), (task_average_partner_twins, ()), (task_topup, ()), (task_topup_conformations, ()), (task_sorter, ()),
-                 (C14.task_make_copy, ()), (reader.task_nterm, ())])   # every alternate location of a chain start is tagged N+
+                 (C14.task_make_copy, ()), (reader.task_nterm, ()), (task_proton_registration, ())])   # every alternate location of a chain start is tagged N+
     pr.assumptions += ['AV: two group identities over 2 and 3 conformations, one determinant per type and conformation '
                        '(values symbolic); more groups behave independently (find_group matches by atom label and type)',
                        'residue identity = atom label (name, number, chain) as in the code: insertion codes are not part of it '
